@@ -761,12 +761,17 @@ static int run_script(std::istream& in)
       }
       else if (tok[1] == "snap")
       {
-        for (auto& [nm, t] : g_threads)
+        // every context the registry still holds (also those of exited threads, until the backend reclaims them)
+        std::vector<quill::detail::ThreadContext*> live;
+        quill::detail::ThreadContextManager::instance().for_each_thread_context(
+          [&](quill::detail::ThreadContext* tc) { live.push_back(tc); });
+        for (auto* tc : live)
         {
-          if (t->st == vs::LT::DONE || !t->ctx) continue;
+          std::string nm = "?";
+          for (auto& [n, t] : g_threads) if (t->ctx == tc) nm = n;
           Ev e{"Snap"};
           e.s("t", nm);
-          snap_ctx(e, static_cast<quill::detail::ThreadContext*>(t->ctx));
+          snap_ctx(e, tc);
         }
       }
     }
@@ -784,6 +789,8 @@ static int run_script(std::istream& in)
 int main(int argc, char** argv)
 {
   if (argc < 3) { fprintf(stderr, "usage: h_sys <script> <trace-out>\n"); return 2; }
+  // remember a thread's context as soon as it has one, also when it parks in the middle of its first call
+  vs::g_on_park = [](vs::LT* lt) { if (lt != &g_backend && my_ctx()) lt->ctx = my_ctx(); };
   vs::g_outpath = argv[2];
   std::set_terminate([] { vs::die("terminate"); });
   {
